@@ -28,6 +28,38 @@ fn own_key<V: Fv>(seed: [u8; 32], nmsgs: usize, vseed: u64, rep: &mut Report) {
         rep.violation("interop:reference-rejects-own-public-key", format!("{}: PQClean does not accept pk.to_bytes()", V::NAME), replay());
         return;
     }
+    // tail-steered signatures (steer.rs): one s2 coefficient beyond six standard deviations, in
+    // either direction; the reference verifier must accept them like any other
+    if seed[2] % 8 == 0 {
+        for flip in [false, true] {
+            let j = (seed[3] as usize * 7) % V::N;
+            if let Some(bits) = crate::steer::plan::<V>(&sk, j, flip) {
+                let msg = b"tail-steered interop".to_vec();
+                let srng = crate::gen::ScriptedRng::new(vseed, &format!("c16-tail-{}-{}", hex(&seed[..6]), flip), crate::gen::Strategy::Directed { bits }, crate::signer::progress_budget(V::N));
+                if let Ok(sig) = crate::signer::sign_scripted::<V>(&msg, &sk, srng, false, 0).sig {
+                    let sb = V::sig_to_bytes(&sig);
+                    let ext = crate::refs::spec::decompress(&sb[41..], V::N).map(|v| v.iter().map(|x| x.abs()).max().unwrap_or(0)).unwrap_or(0);
+                    rep.stat_max("max_abs_s2_in_tail_steered_signatures", ext as f64);
+                    rep.evaluations += 1;
+                    if ext > 2047 {
+                        // the reference format stops at +-2047 (twelve standard deviations); the
+                        // steering overshot it: not an honest-signature shape, nothing to compare
+                        rep.count("tail_steered_beyond_reference_range_skipped", 1);
+                        continue;
+                    }
+                    let pq = reframe_to_pq(&sb, V::LOGN);
+                    match V::pq_verify(&pq, &msg, &pkb) {
+                        Some(true) => rep.count("tail_steered_sig_accepted_by_reference", 1),
+                        other => rep.violation(
+                            "interop:reference-rejects-own-signature",
+                            format!("{}: PQClean result {:?} for a falcon-rust signature with an s2 coefficient of magnitude {} (tail-steered)", V::NAME, other, ext),
+                            json!({"variant": V::NAME, "dir": "own-sig", "seed": hex(&seed), "msg": hex(&msg), "sig": hex(&sb)}),
+                        ),
+                    }
+                }
+            }
+        }
+    }
     let mut rng = rng_for(vseed, &format!("c16-own-{}", hex(&seed[..8])));
     let mut sk_importable = true;
     for m in 0..nmsgs {
